@@ -815,6 +815,10 @@ func history(r *c.Rng, auth *c.FakeAuth, worlds []*world, linear bool, maxLen in
 				if shape == 7 {
 					a.RefreshStatus = []int{401, 403, 500}[r.Intn(3)]
 				}
+			case 8: // connections reset (no HTTP answer at all): a transport error is not an "unavailable" answer
+				a.RefreshStatus, a.ValidateStatus, a.ProfileStatus = 0, 0, 200
+			case 9: // only the group lookup's connection is reset
+				a.RefreshStatus, a.ValidateStatus, a.ProfileStatus = 201, 200, 0
 			default: // 3: everything down for the whole run
 				a.RefreshStatus, a.ValidateStatus, a.ProfileStatus = st, st, st
 			}
@@ -823,7 +827,7 @@ func history(r *c.Rng, auth *c.FakeAuth, worlds []*world, linear bool, maxLen in
 			a = genAns(r, pOK)
 			if r.Chance(0.15) {
 				outage = 1 + r.Intn(4)
-				shape = r.Intn(8)
+				shape = r.Intn(10)
 				outSt = []int{429, 503}[r.Intn(2)]
 				if shape >= 3 && shape <= 5 {
 					outage = 3 + r.Intn(6)
